@@ -45,6 +45,7 @@ class Bisync:
 
     def __init__(self, ctx, F, rid):
         self.F = F
+        self.plan_partitioned = False
         self.run = F.body(RUN)
         self.apply = F.body(APPLY)
         if self.run is None:
@@ -259,6 +260,9 @@ class Bisync:
                     seen_reconcile = True
                 elif o.kind == 'call' and o.key in PASS:
                     work.append(R.blocks[o.bb]['term']['args'][0])
+                elif o.kind == 'call' and str(o.key).endswith('::partition'):
+                    bad.append((o.bb, '%s %s' % (o.kind, o.key)))
+                    work.append(R.blocks[o.bb]['term']['args'][0])      # what is partitioned
                 elif o.kind == 'mutcall' and o.key in PASS:
                     continue
                 elif o.kind == 'mutcall' and str(o.key).split('::')[-1] in ORDER_ONLY:
@@ -273,6 +277,12 @@ class Bisync:
                                 bad.append((ubb, 'mutation through %s' % callee(R.blocks[ubb]['term'])))
                 else:
                     bad.append((o.bb, '%s %s' % (o.kind, o.key)))
+        # a `partition` keeps every entry (in one of two collections): whether the half that is not applied is handled
+        # equivalently elsewhere (e.g. record-only actions folded into the recorded state) is outside this rule
+        self.plan_partitioned = any('partition' in d for _, d in bad)
+        if seen_reconcile and bad and all('partition' in d or d.startswith('agg ') for _, d in bad):
+            ctx.undecided(rid, 'run_bisync partitions the plan before applying it: that the part which is not applied is recorded equivalently is not decided')
+            return
         where = term_loc(R, bad[0][0]) if bad and bad[0][0] is not None else term_loc(R, self.apply_call_bb)
         ctx.check(seen_reconcile and not bad, rid, 'run_bisync:plan-is-reconcile-result', 'the apply loop iterates the value reconcile() returned, unmodified',
                   'the plan that is applied is not exactly what reconcile() decided: it passes through %s - decisions (e.g. the record-only '
